@@ -341,13 +341,18 @@ func (env *verifC12Env) snapshot() *verifC12Snap {
 					}
 					sn.rows = append(sn.rows, r)
 				}
-				// an item whose tail is empty and has no top entries holds nothing (it is what a
-				// dropped zero-weight event leaves behind)
-				if !item.Tail.Empty() || item.Tail.Value.ValueSet || item.Tail.HLL.ItemsCount() != 0 {
+				// a tail or top entry with count 0, no value and no unique holds nothing (it is what
+				// an accepted event whose histogram weights are all zero leaves behind)
+				holds := func(mv *data_model.MultiValue) bool {
+					return !mv.Empty() || mv.Value.ValueSet || mv.HLL.ItemsCount() != 0
+				}
+				if holds(&item.Tail) {
 					add(&item.Tail, "")
 				}
 				for tk, v := range item.Top {
-					add(v, verifC12TagStr(format.StringTopTagIndexV3, tk.I, tk.S))
+					if holds(v) {
+						add(v, verifC12TagStr(format.StringTopTagIndexV3, tk.I, tk.S))
+					}
 				}
 			}
 		}
